@@ -181,45 +181,48 @@ Record state := State {
   log : list ev;                         (* the reporter's call log *)
   fruns : list (nat * bool);             (* invocations of instrumented functions: (call handle, outcome) *)
   rets : list bool;                      (* what each Exec returned (true = the function's error) *)
-  sreg : reg                             (* which scopes are closed / dropped, table epochs *)
+  sreg : reg;                            (* which scopes are closed / dropped, table epochs *)
+  execs : list (nat * (nat * nat * nat) * Z)  (* execution handle -> (call handle, its metrics, start time) *)
 }.
 
 Definition set_scopes (s : state) v : state :=
-  State v (timers s) (thand s) (counters s) (hists s) (hhand s) (sws s) (calls s) (nclk s) (rnh s) (rnb s) (log s) (fruns s) (rets s) (sreg s).
+  State v (timers s) (thand s) (counters s) (hists s) (hhand s) (sws s) (calls s) (nclk s) (rnh s) (rnb s) (log s) (fruns s) (rets s) (sreg s) (execs s).
 Definition set_timers (s : state) v : state :=
-  State (scopes s) v (thand s) (counters s) (hists s) (hhand s) (sws s) (calls s) (nclk s) (rnh s) (rnb s) (log s) (fruns s) (rets s) (sreg s).
+  State (scopes s) v (thand s) (counters s) (hists s) (hhand s) (sws s) (calls s) (nclk s) (rnh s) (rnb s) (log s) (fruns s) (rets s) (sreg s) (execs s).
 Definition set_thand (s : state) v : state :=
-  State (scopes s) (timers s) v (counters s) (hists s) (hhand s) (sws s) (calls s) (nclk s) (rnh s) (rnb s) (log s) (fruns s) (rets s) (sreg s).
+  State (scopes s) (timers s) v (counters s) (hists s) (hhand s) (sws s) (calls s) (nclk s) (rnh s) (rnb s) (log s) (fruns s) (rets s) (sreg s) (execs s).
 Definition set_counters (s : state) v : state :=
-  State (scopes s) (timers s) (thand s) v (hists s) (hhand s) (sws s) (calls s) (nclk s) (rnh s) (rnb s) (log s) (fruns s) (rets s) (sreg s).
+  State (scopes s) (timers s) (thand s) v (hists s) (hhand s) (sws s) (calls s) (nclk s) (rnh s) (rnb s) (log s) (fruns s) (rets s) (sreg s) (execs s).
 Definition set_hists (s : state) v : state :=
-  State (scopes s) (timers s) (thand s) (counters s) v (hhand s) (sws s) (calls s) (nclk s) (rnh s) (rnb s) (log s) (fruns s) (rets s) (sreg s).
+  State (scopes s) (timers s) (thand s) (counters s) v (hhand s) (sws s) (calls s) (nclk s) (rnh s) (rnb s) (log s) (fruns s) (rets s) (sreg s) (execs s).
 Definition set_hhand (s : state) v : state :=
-  State (scopes s) (timers s) (thand s) (counters s) (hists s) v (sws s) (calls s) (nclk s) (rnh s) (rnb s) (log s) (fruns s) (rets s) (sreg s).
+  State (scopes s) (timers s) (thand s) (counters s) (hists s) v (sws s) (calls s) (nclk s) (rnh s) (rnb s) (log s) (fruns s) (rets s) (sreg s) (execs s).
 Definition set_sws (s : state) v : state :=
-  State (scopes s) (timers s) (thand s) (counters s) (hists s) (hhand s) v (calls s) (nclk s) (rnh s) (rnb s) (log s) (fruns s) (rets s) (sreg s).
+  State (scopes s) (timers s) (thand s) (counters s) (hists s) (hhand s) v (calls s) (nclk s) (rnh s) (rnb s) (log s) (fruns s) (rets s) (sreg s) (execs s).
 Definition set_calls (s : state) v : state :=
-  State (scopes s) (timers s) (thand s) (counters s) (hists s) (hhand s) (sws s) v (nclk s) (rnh s) (rnb s) (log s) (fruns s) (rets s) (sreg s).
+  State (scopes s) (timers s) (thand s) (counters s) (hists s) (hhand s) (sws s) v (nclk s) (rnh s) (rnb s) (log s) (fruns s) (rets s) (sreg s) (execs s).
 Definition set_nclk (s : state) v : state :=
-  State (scopes s) (timers s) (thand s) (counters s) (hists s) (hhand s) (sws s) (calls s) v (rnh s) (rnb s) (log s) (fruns s) (rets s) (sreg s).
+  State (scopes s) (timers s) (thand s) (counters s) (hists s) (hhand s) (sws s) (calls s) v (rnh s) (rnb s) (log s) (fruns s) (rets s) (sreg s) (execs s).
 Definition set_rnh (s : state) v : state :=
-  State (scopes s) (timers s) (thand s) (counters s) (hists s) (hhand s) (sws s) (calls s) (nclk s) v (rnb s) (log s) (fruns s) (rets s) (sreg s).
+  State (scopes s) (timers s) (thand s) (counters s) (hists s) (hhand s) (sws s) (calls s) (nclk s) v (rnb s) (log s) (fruns s) (rets s) (sreg s) (execs s).
 Definition set_rnb (s : state) v : state :=
-  State (scopes s) (timers s) (thand s) (counters s) (hists s) (hhand s) (sws s) (calls s) (nclk s) (rnh s) v (log s) (fruns s) (rets s) (sreg s).
+  State (scopes s) (timers s) (thand s) (counters s) (hists s) (hhand s) (sws s) (calls s) (nclk s) (rnh s) v (log s) (fruns s) (rets s) (sreg s) (execs s).
 Definition set_log (s : state) v : state :=
-  State (scopes s) (timers s) (thand s) (counters s) (hists s) (hhand s) (sws s) (calls s) (nclk s) (rnh s) (rnb s) v (fruns s) (rets s) (sreg s).
+  State (scopes s) (timers s) (thand s) (counters s) (hists s) (hhand s) (sws s) (calls s) (nclk s) (rnh s) (rnb s) v (fruns s) (rets s) (sreg s) (execs s).
 Definition set_fruns (s : state) v : state :=
-  State (scopes s) (timers s) (thand s) (counters s) (hists s) (hhand s) (sws s) (calls s) (nclk s) (rnh s) (rnb s) (log s) v (rets s) (sreg s).
+  State (scopes s) (timers s) (thand s) (counters s) (hists s) (hhand s) (sws s) (calls s) (nclk s) (rnh s) (rnb s) (log s) v (rets s) (sreg s) (execs s).
 Definition set_rets (s : state) v : state :=
-  State (scopes s) (timers s) (thand s) (counters s) (hists s) (hhand s) (sws s) (calls s) (nclk s) (rnh s) (rnb s) (log s) (fruns s) v (sreg s).
+  State (scopes s) (timers s) (thand s) (counters s) (hists s) (hhand s) (sws s) (calls s) (nclk s) (rnh s) (rnb s) (log s) (fruns s) v (sreg s) (execs s).
 Definition set_sreg (s : state) v : state :=
-  State (scopes s) (timers s) (thand s) (counters s) (hists s) (hhand s) (sws s) (calls s) (nclk s) (rnh s) (rnb s) (log s) (fruns s) (rets s) v.
+  State (scopes s) (timers s) (thand s) (counters s) (hists s) (hhand s) (sws s) (calls s) (nclk s) (rnh s) (rnb s) (log s) (fruns s) (rets s) v (execs s).
+Definition set_execs (s : state) v : state :=
+  State (scopes s) (timers s) (thand s) (counters s) (hists s) (hhand s) (sws s) (calls s) (nclk s) (rnh s) (rnb s) (log s) (fruns s) (rets s) (sreg s) v.
 
 Definition add_log (s : state) (x : list ev) : state := set_log s (log s ++ x).
 
 Definition init (sz : sanz) (root : bytes * tags) : state :=
   let r := (jn (sepz sz) (sn sz (fst root)), tmerge [] (stags sz (snd root))) in
-  State [r] [] [] [] [] [] [] [] 0%nat 0 0 [] [] [] (reg_init r).
+  State [r] [] [] [] [] [] [] [] 0%nat 0 0 [] [] [] (reg_init r) [].
 
 (* ---------- get-or-create (scope.Timer / Counter / Histogram) ---------- *)
 Definition tkeys (s : state) : list key := map tkey (timers s).
@@ -329,7 +332,14 @@ Inductive op :=
 | OStop (w : nat)                            (* sws[w].Stop() *)
 | OCall (s : nat) (n : bytes)                (* new call handle := instrument.NewCall(scopes[s], n) *)
 | OExec (c : nat) (e : bool)                 (* calls[c].Exec(f), f returning an error iff e *)
-| OClose (s : nat).                          (* scopes[s].Close() (the root: final report, everything dropped) *)
+| OClose (s : nat)                           (* scopes[s].Close() (the root: final report, everything dropped) *)
+(* an execution whose function does not return at once: calls[c].Exec(f) has
+   started and is inside f (OBegin: new execution handle) ... f returns, with
+   an error iff e, and Exec finishes (OEnd).  Anything may happen in between,
+   other executions on the same Call included (f calling Exec itself, another
+   goroutine). *)
+| OBegin (c : nat)
+| OEnd (x : nat) (e : bool).
 
 Definition step (sz : sanz) (fl : flavour) (clk : nat -> Z) (s : state) (o : op) : state :=
   match o with
@@ -422,6 +432,21 @@ Definition step (sz : sanz) (fl : flavour) (clk : nat -> Z) (s : state) (o : op)
           else if scope_eqb sc (r_root (sreg s))
           then let s1 := pass fl s in set_sreg s1 (reg_rootclose (is_test fl) (sreg s1))
           else set_sreg s (reg_close (sreg s) sc)
+      | None => s
+      end
+  | OBegin c =>
+      match nth_error (calls s) c with
+      | Some h => set_nclk (set_execs s (execs s ++ [(c, h, clk (nclk s))])) (S (nclk s))   (* sw := timing.Start() *)
+      | None => s
+      end
+  | OEnd x e =>
+      match nth_error (execs s) x with
+      | Some (c, (ce, cs, ti), st) =>
+          let d := sat64 (clk (nclk s) - st) in                                    (* sw.Stop() *)
+          let s1 := set_fruns (set_nclk s (S (nclk s))) (fruns s ++ [(c, e)]) in
+          let s2 := deliver fl s1 ti d in
+          let s3 := inc_counter s2 (if e then ce else cs) in
+          set_rets s3 (rets s3 ++ [e])
       | None => s
       end
   end.
